@@ -45,6 +45,18 @@ __CPROVER_ensures((OKRET && SRV_ON && SRV.verifyPeer) ==> (G_ctx_srv.ca_load_cal
 __CPROVER_ensures((OKRET && CLI_ON && CLI.verifyPeer) ==> ((G_ctx_cli.ca_load_calls >= 1 && G_ctx_cli.ca_load_result == 1) || (G_ctx_cli.default_paths_calls >= 1 && CLI.caFile.n == 0 && CLI.caPath.n == 0)))
 /* K2b the locations passed are the configured ones (NULL only for an empty setting) */
 __CPROVER_ensures((OKRET && SRV_ON && SRV.verifyPeer) ==> (G_ctx_srv.ca_file_null == (SRV.caFile.n == 0) && G_ctx_srv.ca_path_null == (SRV.caPath.n == 0)))
+/* TA1 the trust store of a verifying CLIENT context consists of EXACTLY the configured locations: SSL_CTX_load_verify_locations called once with
+ *     them (successfully) and the platform default store NOT added */
+__CPROVER_ensures((OKRET && CLI_ON && CLI.verifyPeer && (CLI.caFile.n != 0 || CLI.caPath.n != 0)) ==>
+   (G_ctx_cli.ca_load_calls == 1 && G_ctx_cli.ca_load_result == 1 && G_ctx_cli.default_paths_calls == 0
+    && G_ctx_cli.ca_file_null == (CLI.caFile.n == 0) && G_ctx_cli.ca_path_null == (CLI.caPath.n == 0)))
+/* TA2 ... with nothing configured: the default paths, loaded exactly once, and nothing else */
+__CPROVER_ensures((OKRET && CLI_ON && CLI.verifyPeer && CLI.caFile.n == 0 && CLI.caPath.n == 0) ==> (G_ctx_cli.default_paths_calls == 1 && G_ctx_cli.ca_load_calls == 0))
+/* TA3 with verification off no trust location is loaded at all (client and server) */
+__CPROVER_ensures((OKRET && CLI_ON && !CLI.verifyPeer) ==> (G_ctx_cli.ca_load_calls == 0 && G_ctx_cli.default_paths_calls == 0))
+__CPROVER_ensures((OKRET && SRV_ON && !SRV.verifyPeer) ==> (G_ctx_srv.ca_load_calls == 0 && G_ctx_srv.default_paths_calls == 0))
+/* TA4 SERVER context (what the server block does: an explicit CA is mandatory, K4): exactly the configured locations, loaded once, never the default store */
+__CPROVER_ensures((OKRET && SRV_ON && SRV.verifyPeer) ==> (G_ctx_srv.ca_load_calls == 1 && G_ctx_srv.ca_load_result == 1 && G_ctx_srv.default_paths_calls == 0))
 /* K3 CA load failure => false */
 __CPROVER_ensures((SRV_ON && G_ctx_new_calls >= 1 && self->_sslSrv == &G_ctx_srv && G_ctx_srv.ca_load_calls >= 1 && G_ctx_srv.ca_load_result != 1) ==> !OKRET)
 __CPROVER_ensures((CLI_ON && self->_sslCli == &G_ctx_cli && G_ctx_cli.side == 2 && G_ctx_cli.ca_load_calls >= 1 && G_ctx_cli.ca_load_result != 1) ==> !OKRET)
